@@ -59,6 +59,11 @@ type gatedBuffer struct {
 	reached chan struct{}
 	release chan struct{}
 	once    sync.Once
+	// sign-fault (signfault_test.go): once released, the read at the gate returns
+	// this error instead of data / EOF (the signer's view only; the queue gets
+	// the healthy bytes)
+	failErr error
+	failed  atomic.Bool
 }
 
 func newGatedBuffer(data []byte, at int) *gatedBuffer {
@@ -81,6 +86,10 @@ func (r *gatedReader) Read(p []byte) (int, error) {
 			close(b.reached)
 			<-b.release
 		})
+	}
+	if r.off == b.at && b.failErr != nil {
+		b.failed.Store(true)
+		return 0, b.failErr
 	}
 	if r.off >= len(b.data) {
 		return 0, io.EOF
@@ -345,6 +354,10 @@ type concMsg struct {
 	// logical facts of the gated schedule
 	reachedGate bool
 	passedBy    []int // messages signed completely while this one sat at its gate
+	// sign-fault: this member's body fails under the signer (never one of the
+	// same-domain pair)
+	sf    *signFault
+	flaky *flakyBuffer
 }
 
 type roundMember struct {
@@ -357,6 +370,7 @@ type roundMember struct {
 	BodyLen  int      `json:"body_bytes"`
 	PassedBy []int    `json:"signed_completely_while_this_one_was_in_RewriteBody,omitempty"`
 	Fields   []string `json:"fields,omitempty"`
+	SignFault string  `json:"body_error_while_signing,omitempty"`
 }
 
 type roundInfo struct {
@@ -523,6 +537,7 @@ func (h *harness) runConcRound(c *rep.Case, idx, rn int) {
 
 	schedule := ""
 	logicalOverlap := false
+	sfq := prng.New(seed, uint64(idx), "c08conc-signfault") // own stream: the rounds stay what they were
 	if mode == "storm" {
 		// every message enters RewriteBody and gets as far as opening its body;
 		// when all are there (or have returned without touching the body) the
@@ -533,7 +548,13 @@ func (h *harness) runConcRound(c *rep.Case, idx, rn int) {
 			m.role = "storm"
 			arrived[pos] = make(chan struct{})
 			inner := slowBuffer{data: m.pm.msg.Body, chunk: prng.Pick(p, []int{3, 64, 512, 4096, 32768})}
-			m.view = &barrierBuffer{Buffer: inner, barrier: barrier, arrived: arrived[pos]}
+			var in buffer.Buffer = inner
+			if order[pos] >= 2 && sfq.Chance(1, 3) {
+				m.sf = drawSignFault(sfq, sfq.Intn(7000), m.pm.msg.Body)
+				m.flaky = &flakyBuffer{Buffer: inner, f: m.sf}
+				in = m.flaky
+			}
+			m.view = &barrierBuffer{Buffer: in, barrier: barrier, arrived: arrived[pos]}
 		}
 		for _, m := range msgs {
 			start(m)
@@ -596,6 +617,10 @@ func (h *harness) runConcRound(c *rep.Case, idx, rn int) {
 				}
 				m.role = "blocked"
 				m.gate = newGatedBuffer(body, at)
+				if order[pos] >= 2 && sfq.Chance(1, 3) {
+					m.sf = &signFault{Kind: "read-error", At: "at-the-gate", Cut: at, Err: signFaultErrs[sfq.Intn(len(signFaultErrs))]}
+					m.gate.failErr = signFaultErr(m.sf.Err, "read")
+				}
 				m.view = m.gate
 				blocked = append(blocked, m)
 			} else {
@@ -730,6 +755,9 @@ func (h *harness) runConcRound(c *rep.Case, idx, rn int) {
 				mem.GateAt += " (not reached: RewriteBody returned without reading the body)"
 			}
 		}
+		if m.sf != nil {
+			mem.SignFault = m.sf.String()
+		}
 		mem.Fields = m.pm.msg.Fields
 		if len(mem.Fields) > 60 {
 			mem.Fields = mem.Fields[:60]
@@ -742,6 +770,23 @@ func (h *harness) runConcRound(c *rep.Case, idx, rn int) {
 	var shapes []string
 	for pos, m := range msgs {
 		m.pm.w.Round = roundInfo{Mode: mode, ThisMessage: pos, Schedule: schedule, MaxInFlight: maxSeen, Members: members}
+		if m.sf != nil {
+			fired := (m.flaky != nil && m.flaky.disarm()) || (m.gate != nil && m.gate.failed.Load())
+			if fired {
+				r.Count("conc_sign_fault_fired", 1)
+				r.Count("conc_sign_fault_fired_"+mode, 1)
+				m.pm.w.SignFault = m.sf
+				if m.err != nil && !strings.HasPrefix(m.err.Error(), "c08 harness: ") && !strings.HasPrefix(m.err.Error(), "panic inside") {
+					// refused by the signer: not a signed message, nothing goes on
+					r.Count("conc_sign_fault_refused_by_signer", 1)
+					shapes = append(shapes, m.profile+":"+m.role+":sign-fault")
+					continue
+				}
+				if m.err == nil {
+					r.Count("conc_sign_fault_message_went_on", 1)
+				}
+			}
+		}
 		judged := h.afterSign(subs[pos], m.pm, m.err)
 		nontrivial = nontrivial || subs[pos].nontrivial
 		shapes = append(shapes, m.profile+":"+m.role)
